@@ -82,6 +82,8 @@ def decoding(ctx, fd):
 
 
 def rules(ctx):
+    from .C02 import capacity_capped_by_total
+    capacity_capped_by_total(ctx)      # the capacity of a depot's spawn arc (capacity_of -> capacity_for) is capped by the depot's total
     ties.range_bound_rule(ctx, "R3.predecessors-keep-ties", N("predecessors"), "pred")
     ties.range_bound_rule(ctx, "R3.successors-keep-ties", N("successors"), "succ")
     fd, edges = flownet.edge_sites(ctx)
@@ -96,19 +98,44 @@ def rules(ctx):
     if e is not None and fd is not None:
         bad = []
         seen = 0
+        TARGETS = (N("dead_head_time_between"), N("idle_time_between"))
+
+        def arg_atoms(f, c, i, outer):
+            """callees on the direct provenance of argument i of call c in f (the loop variable of `for pred in
+            predecessors(..)` leads to `predecessors`); a parameter of a helper is continued at the helper's call"""
+            ch, root = direct_chain(f, c.args[i], want_root=True)
+            at = {call(x) for x in ch}
+            if outer is not None and root is not None and 1 <= root <= f.body.argc:
+                of, oc = outer
+                if root - 1 < len(oc.args):
+                    at |= {call(x) for x in direct_chain(of, oc.args[root - 1])}
+            return at
+
         cs = fd.slice_operand_pure(e.instr, e.fields["cost"][0])
         for d in cs["defs"]:
             c = d.instr
-            if c is not None and c.kind == "call" and c.callee in (N("dead_head_time_between"), N("idle_time_between")):
+            if c is None or c.kind != "call":
+                continue
+            sites = []
+            if c.callee in TARGETS:
+                sites.append((fd, c, None))
+            elif (c.callee or "").startswith("solver::min_cost_flow_solver::") and c.callee in ctx.prog.bodies:
+                # the cost was moved into a helper of the solver: look one level down
+                f2 = ctx.fd(c.callee)
+                sites += [(f2, c2, (fd, c)) for c2 in f2.body.calls() if c2.callee in TARGETS]
+            for f, c2, outer in sites:
                 seen += 1
-                a1 = fd.slice_operand_pure(c, c.args[1])["atoms"]
-                a2 = fd.slice_operand_pure(c, c.args[2])["atoms"]
+                a1, a2 = arg_atoms(f, c2, 1, outer), arg_atoms(f, c2, 2, outer)
                 p1, p2 = call(N("predecessors")) in a1, call(N("predecessors")) in a2
                 if p2 and not p1:
-                    bad.append(c)
-        ctx.decide(o, seen >= 2 and not bad, "%d calls, predecessor first" % seen,
-                   "%s at %s is asked for the reverse direction (head node first)" % ((bad[0].callee or "").split("::")[-1], bad[0].line()) if bad
-                   else "cost calls not found", loc=bad[0].line() if bad else None)
+                    bad.append(c2)
+        if bad:
+            ctx.bad(o, "%s at %s is asked for the reverse direction (head node first)" % ((bad[0].callee or "").split("::")[-1], bad[0].line()),
+                    loc=bad[0].line())
+        elif seen >= 2:
+            ctx.ok(o, "%d calls, predecessor first" % seen)
+        else:
+            ctx.undecided(o, "the calls computing the connection cost are not in a recognised place (R1.connection-cost still requires them)")
     flownet.need(ctx, "R1.trip-cost", edges, "trip", "cost", [call(ND("duration")), field(COSTS, "service_trip")],
                  "trip arcs cost their duration at the service rate")
     flownet.need(ctx, "R1.maintenance-cost", edges, "maintenance", "cost", [call(ND("duration")), field(COSTS, "maintenance")],
